@@ -10,6 +10,7 @@ import (
 
 	"github.com/google/uuid"
 	"go.dedis.ch/onet/v3"
+	"go.dedis.ch/onet/v3/network"
 	"onetverif/harness/fix"
 	"onetverif/harness/h"
 )
@@ -170,7 +171,7 @@ func c05exec(c *h.Ctx, cs *h.Case) {
 	// three instances, or as many as the ops name (class script-many: dozens of instances on one server)
 	nInst := 3
 	for _, op := range cs.Ops {
-		if tk := strings.Fields(op); len(tk) >= 3 && (tk[1] == "accept" || tk[1] == "self" || tk[1] == "exit" || tk[1] == "close") {
+		if tk := strings.Fields(op); len(tk) >= 3 && (tk[1] == "accept" || tk[1] == "self" || tk[1] == "late" || tk[1] == "exit" || tk[1] == "close") {
 			if i, err := strconv.Atoi(tk[2]); err == nil && i >= nInst && i < 4096 {
 				nInst = i + 1
 			}
@@ -261,13 +262,35 @@ func c05exec(c *h.Ctx, cs *h.Case) {
 			continue
 		}
 		switch tk[1] {
-		case "accept", "self":
+		case "accept", "self", "late":
 			m, _ := strconv.Atoi(tk[3])
 			r.mu.Lock()
 			expectEnter := !in.closed && in.entered == in.exited
 			want := in.entered + 1
 			r.mu.Unlock()
 			handOver := inject
+			if tk[1] == "late" {
+				// the overlay looked the instance up (TransmitMsg, under instancesLock) just before the instance was
+				// closed and calls ProcessProtocolMsg afterwards — nodeDone does not take transmitMux, so this
+				// interleaving exists: the message goes straight to the protocol instance
+				if in.rec == nil {
+					cs.Impl = append(cs.Impl, "no-instance")
+					continue
+				}
+				handOver = func(i, m int) bool {
+					from := ct.target.Parent
+					pm := &onet.ProtocolMsg{From: fix.TokenFor(ct.t, from, uuid.UUID(in.to.RoundID)), To: in.to,
+						ServerIdentity: from.ServerIdentity, Msg: &fix.M3{V: m}, MsgType: network.MessageType(&fix.M3{})}
+					done := make(chan struct{})
+					go func() { in.rec.Tni.ProtocolInstance().ProcessProtocolMsg(pm); close(done) }()
+					select {
+					case <-done:
+						return true
+					case <-time.After(10 * time.Second):
+						return false
+					}
+				}
+			}
 			if tk[1] == "self" {
 				// the instance sends to its own node (from a goroutine of the protocol other than the handler)
 				if in.rec == nil {
@@ -438,6 +461,9 @@ func c05gen(c *h.Ctx, yield func(*h.Case)) {
 	// (taken from the queue together or not): none of them is handled
 	yield(&h.Case{Class: "script-corpus", Ops: []string{
 		"c05 accept 0 1", "c05 accept 0 2", "c05 accept 0 3", "c05 accept 0 4", "c05 exit 0", "c05 close 0", "c05 exit 0", "c05 exit 0", "c05 accept 0 5", "c05 accept 1 6", "c05 exit 1"}})
+	// a hand-over that was looked up before the instance closed and arrives after: dropped by the instance itself
+	yield(&h.Case{Class: "script-corpus", Ops: []string{
+		"c05 accept 0 1", "c05 accept 0 2", "c05 close 0", "c05 late 0 3", "c05 exit 0", "c05 late 0 4", "c05 accept 1 5", "c05 late 1 6", "c05 exit 1", "c05 exit 1"}})
 	// a handler that stays blocked for a long time (longer than any plausible internal time limit)
 	yield(&h.Case{Class: "script-long-block", Ops: []string{"c05 accept 0 1", "c05 accept 0 2", "c05 accept 1 3", "c05 sleep 10600",
 		"c05 accept 0 4", "c05 exit 1", "c05 exit 0", "c05 exit 0", "c05 exit 0"}})
@@ -510,7 +536,11 @@ func c05gen(c *h.Ctx, yield func(*h.Case)) {
 					}
 				}
 			default:
-				if r.Intn(3) == 0 && (running[i] || queued[i] > 0 || created[i]) {
+				if closed[i] && created[i] {
+					m++
+					cs.Ops = append(cs.Ops, fmt.Sprintf("c05 late %d %d", i, m))
+					c.Count("op=late")
+				} else if r.Intn(3) == 0 && (running[i] || queued[i] > 0 || created[i]) {
 					cs.Ops = append(cs.Ops, fmt.Sprintf("c05 close %d", i))
 					closed[i] = true
 				}
